@@ -191,14 +191,14 @@ def c11(tier, seed):
         {"type": "s2i", "kind": "pwint", "mc": {"module": "MC_IntegralIter", "constants": {"N": n, "M": m}, "workers": 4, "heap": "8g"}},
         CALIB,
         {"type": "i2s", "name": "drive pwint poly", "spec": "Trace_PwInt", "cmd": ["drive", "pwint", "{seed}", q(tier, 25, 300), "{trace}", "poly"],
-         "min_tally": [150, 60, 100, 0]},
+         "min_tally": [90, 40, 60, 0]},
         {"type": "i2s", "name": "drive pwint log", "spec": "Trace_PwInt", "cmd": ["drive", "pwint", "{seed}", q(tier, 6, 40), "{trace}", "log"],
-         "min_tally": [40, 15, 25, 40]},
+         "min_tally": [25, 10, 15, 25]},
         library_s2i(tier, "integrate"), repo_tests("integrate"), session_step(tier, "integrate"),
     ]
     if tier == "thorough":
         steps += [{"type": "i2s", "name": "drive pwint log shard %d" % k, "spec": "Trace_PwInt",
-                   "cmd": ["drive", "pwint", str(seed * 1000 + k), 40, "{trace}", "log"], "min_tally": [40, 15, 25, 40]} for k in range(1, 10)]
+                   "cmd": ["drive", "pwint", str(seed * 1000 + k), 40, "{trace}", "log"], "min_tally": [25, 10, 15, 25]} for k in range(1, 10)]
     return steps
 
 
